@@ -91,21 +91,42 @@ func pos1of(rng [][2]int) v1.Positions {
 	for _, r := range rng {
 		b.AddRange(r[0], r[1])
 	}
-	return b.Build()
+	p := b.Build()
+	// the builder goes on to build something else: what it built before is a value of its own
+	for _, r := range rng {
+		b.AddRange(r[0]+7, r[1]+9)
+	}
+	b.AddRange(1, 3)
+	b.Build()
+	return p
 }
 func pos2of(rng [][2]int) v2.Positions {
 	var b v2.PositionsBuilder
 	for _, r := range rng {
 		b.AddRange(r[0], r[1])
 	}
-	return b.Build()
+	p := b.Build()
+	// the builder goes on to build something else: what it built before is a value of its own
+	for _, r := range rng {
+		b.AddRange(r[0]+7, r[1]+9)
+	}
+	b.AddRange(1, 3)
+	b.Build()
+	return p
 }
 func pos3of(rng [][2]int) v3.Positions {
 	var b v3.PositionsBuilder
 	for _, r := range rng {
 		b.AddRange(r[0], r[1])
 	}
-	return b.Build()
+	p := b.Build()
+	// the builder goes on to build something else: what it built before is a value of its own
+	for _, r := range rng {
+		b.AddRange(r[0]+7, r[1]+9)
+	}
+	b.AddRange(1, 3)
+	b.Build()
+	return p
 }
 
 func codePoints(s string) []string {
